@@ -40,6 +40,7 @@ type Scenario struct {
 	Concurrent bool
 	Cycles     []int
 	Faults     bool // C13: errors are expected when a fault was injected
+	After      int  // > 0: another sorter with this (larger) chunk size is used for one in-memory cycle and cleaned up first
 }
 
 func (s Scenario) Name() string {
@@ -51,7 +52,11 @@ func (s Scenario) Name() string {
 	for i, c := range s.Cycles {
 		cs[i] = fmt.Sprint(c)
 	}
-	return fmt.Sprintf("sort-%s-chunk%d-push%s", mode, s.Chunk, strings.Join(cs, "+"))
+	after := ""
+	if s.After > 0 {
+		after = fmt.Sprintf("-after%d", s.After)
+	}
+	return fmt.Sprintf("sort-%s-chunk%d-push%s%s", mode, s.Chunk, strings.Join(cs, "+"), after)
 }
 
 func Bad(r *vrt.Result) (string, string) {
@@ -64,6 +69,8 @@ func Bad(r *vrt.Result) (string, string) {
 		return "deadlock", strings.Join(r.Blocked, "; ")
 	case r.Outcome == "leak":
 		return "writer-left-running", strings.Join(r.Blocked, "; ")
+	case r.Outcome == "horizon":
+		return "livelock", fmt.Sprintf("the execution does not end within the step horizon (%d scheduling steps): the calls never return", len(r.Trace))
 	}
 	return "", ""
 }
@@ -82,6 +89,20 @@ func (s Scenario) Mk() vrt.Run {
 		return c.err
 	}
 	return vrt.Run{Body: func() {
+		if s.After > 0 {
+			// an unrelated sorter lived before this one: whatever it leaves behind in the package
+			// (buffers, registrations) must not change what the sorter under test does
+			o, err := morass.New(IV(0), "vrt", "", s.After, s.Concurrent)
+			if err != nil {
+				newErr = err
+				return
+			}
+			var v IV
+			if o.Push(IV(7)) != nil || o.Finalise() != nil || o.Pull(&v) != nil || o.Pull(&v) != io.EOF || o.CleanUp() != nil {
+				newErr = fmt.Errorf("the preceding sorter failed")
+				return
+			}
+		}
 		m, err := morass.New(IV(0), "vrt", "", s.Chunk, s.Concurrent)
 		if err != nil {
 			newErr = err
